@@ -198,7 +198,8 @@ class Optimizer(Identifiable, Runnable):
         return state
 
     def load_state_dict(self, state_dict: dict[str, Any]) -> None:
-        self._epoch = state_dict["iteration"]
+        # the checkpoint is written at the end of iteration `iteration`
+        self._epoch = state_dict["iteration"] + 1
         optimizer_state = dict(state_dict["optimizer"])
         # JSON turns the integer keys of the optimizer state into strings
         optimizer_state["state"] = {
